@@ -90,10 +90,10 @@ class Tie(object):
           out.append(("calc-before", "%d calc deltas whose `before` differs from the model's cell "
                       "(a cell changed without an action)" % ans["calc_before_mismatch"]))
         if compare_lists:
-          if ans["stored"] != stored:
-            out.append(("stored", first_diff(ans["stored"], stored)))
-          if ans["undo"] != undo:
-            out.append(("undo", first_diff(ans["undo"], undo)))
+          if jnorm(ans["stored"]) != jnorm(stored):
+            out.append(("stored", first_diff(jnorm(ans["stored"]), jnorm(stored))))
+          if jnorm(ans["undo"]) != jnorm(undo):
+            out.append(("undo", first_diff(jnorm(ans["undo"]), jnorm(undo))))
           if ans["direct"] != direct:
             out.append(("direct", "model %r engine %r" % (ans["direct"], direct)))
         return out
@@ -161,6 +161,27 @@ class Tie(object):
     return self.problems
 
 
+def jnorm(x):
+  """Canonicalisation shared by both sides of every comparison: in list-typed columns the engine's
+  `Column.set` turns a string that is a JSON list (ChoiceListColumn.set, ReferenceListColumn.
+  _clean_up_value) into the list itself; the model keeps the string.  Both are mapped to the list
+  token.  (Documented coarsening: a Text cell "[1, 4]" and a list cell [1, 4] compare equal.)"""
+  if isinstance(x, str):
+    if x.startswith("s["):
+      try:
+        v = json.loads(x[1:])
+      except ValueError:
+        return x
+      if isinstance(v, list):
+        return ed.tok(["L"] + v)
+    return x
+  if isinstance(x, list):
+    return [jnorm(y) for y in x]
+  if isinstance(x, dict):
+    return {k: jnorm(v) for k, v in x.items()}
+  return x
+
+
 def first_diff(model, engine):
   if len(model) != len(engine):
     for i, (a, b) in enumerate(zip(model, engine)):
@@ -200,7 +221,7 @@ def diff_obs(model, engine, exact=True):
         ei["reverseColId"] = None
       if mi != ei:
         out.append("column info %s.%s: model %r engine %r" % (t, c, mi, ei)); continue
-      mv, ev = mt["cols"][c]["vals"], et["cols"][c]["vals"]
+      mv, ev = jnorm(mt["cols"][c]["vals"]), jnorm(et["cols"][c]["vals"])
       if mv != ev:
         for i, r in enumerate(mt["ids"]):
           if f(mv[i]) != f(ev[i]):
